@@ -818,7 +818,6 @@ func TestC03Random(t *testing.T) {
 
 var _ = os.Getenv
 
-
 // TestC04Literals: JSON literals and quoted identifiers whose text is a valid JSON
 // value/string with one or two character-level edits (append junk, duplicate,
 // delete, insert): Compile must accept the expression iff the standard library
